@@ -178,7 +178,7 @@ func endlessScript(rt *rapid.T) (string, string) {
 		}
 		return strings.Replace(l, "BODY", b, 1)
 	}
-	shape := rapid.SampledFrom([]string{"top", "top", "function", "nested-functions", "function-in-loop", "recursion-with-loop", "foreach-endless", "after-work"}).Draw(rt, "shape")
+	shape := rapid.SampledFrom([]string{"top", "top", "function", "nested-functions", "function-in-loop", "recursion-with-loop", "foreach-endless", "after-work", "branching-recursion", "branching-recursion", "mutual-branching", "straight-line"}).Draw(rt, "shape")
 	pre := "trace(0); x = 0;\n"
 	switch shape {
 	case "top":
@@ -202,6 +202,28 @@ func endlessScript(rt *rapid.T) (string, string) {
 		return pre + "function spin(a) { " + loop() + " return a; }\nforeach q in 1..3 { if (q > 0) { spin(q); } }", shape
 	case "recursion-with-loop":
 		return pre + "function r(n) { if (n <= 0) { " + loop() + " } return r(n - 1); }\nr(" + fmt.Sprint(rapid.IntRange(0, 50).Draw(rt, "rdepth")) + ");", shape
+	case "branching-recursion":
+		// no loop anywhere: 2^n calls at a call depth of only n
+		n := rapid.IntRange(40, 70).Draw(rt, "burn")
+		body := rapid.SampledFrom([]string{"return burn(n - 1) + burn(n - 1);", "x = burn(n - 1); return x + burn(n - 1);", "return (burn(n - 1) > 0) ? burn(n - 1) : 0;", "return burn(n - 1) && burn(n - 1) || burn(n - 1);"}).Draw(rt, "burnbody")
+		call := fmt.Sprintf("burn(%d);", n)
+		if rapid.Bool().Draw(rt, "burninloop") {
+			call = "foreach q in [1] { " + call + " }"
+		}
+		return pre + "function burn(n) { if (n <= 0) { return 1; } " + body + " }\n" + call, shape
+	case "mutual-branching":
+		n := rapid.IntRange(40, 70).Draw(rt, "burn")
+		return pre + "function ping(n) { if (n <= 0) { return 1; } return pong(n - 1) + pong(n - 1); }\nfunction pong(n) { if (n <= 0) { return 1; } return ping(n - 1) + ping(n - 1) + 1; }\n" + fmt.Sprintf("ping(%d);", n), shape
+	case "straight-line":
+		// a long stretch of straight-line code inside a (slowly) looping program
+		var b strings.Builder
+		b.WriteString(pre)
+		b.WriteString("while (true) {\n")
+		for i := 0; i < rapid.IntRange(200, 3000).Draw(rt, "linelen"); i++ {
+			b.WriteString("x = x + 1;\n")
+		}
+		b.WriteString("}")
+		return b.String(), shape
 	case "foreach-endless":
 		return pre + "while (true) { foreach i, v in 1.." + fmt.Sprint(rapid.IntRange(1, 10000).Draw(rt, "rangelen")) + " { x = v; } }", shape
 	}
